@@ -749,9 +749,12 @@ package avro
 //@   modifies d.i, d.buf, d.rb
 
 //@ func (*ReadBuf).ExtractResourceBank
-//@   props C06
+//@   props C06, C12
 //@   requires d != nil
 //@   ensures [C07,C10] res == old(d.rb) && d.rb != nil && d.i == old(d.i) && d.buf == old(d.buf)
+//     the reader always continues with a bank it has just taken from the pool (never with the bank it hands out, which the
+//     caller may close, i.e. put back into the pool, at any time: C10, and C12 for readers on other goroutines)
+//@   ensures [C10,C12] tlen() == 1 && tkind(0) == evNEW && tb(0) == uint64(d.rb)
 //     the pool never hands out a bank that is still referenced (premise of the bank API), and bank buffers are private
 //@   ensures [assume] d.rb != old(d.rb) && (base(d.rb.sData) != base(d.buf) || len(d.buf) == 0)
 //@   modifies d.rb
